@@ -78,8 +78,12 @@ Desired(pg, view) ==
     [] pg = "first"   -> {Slots[1]}
     [] pg = "badlabel" -> {Slots[1]}      \* same answer, but the child's labels do not satisfy the parent's selector
     [] pg = "all"     -> Names
+    [] pg = "echo"    -> Names             \* same set, but the hook echoes the observed objects back (annotations and all,
+                                           \* minus what the API server owns: resourceVersion, uid, status, ...)
+    [] pg = "echoraw" -> Names             \* ... and this one echoes them back verbatim, resourceVersion included
+    [] pg = "ownedref" -> {Slots[1]}       \* the desired child already lists the parent as a plain (non-controller) owner
     [] pg = "ordinal" -> { k \in Names : \A j \in Names : Pos(j) < Pos(k) => j \in view }   \* child i only once child i-1 is observed
-Updatable(m) == m \in {"Recreate", "InPlace"}
+Updatable(m) == m \in {"Recreate", "InPlace", "SSA"}
 \* one whole sync (fresh cache)
 \* a desired child that would not match the selector is rejected before anything is written (C04): only the
 \* claim phase, which precedes the hook, has happened.  (With a generated selector the controller adds the
@@ -92,6 +96,10 @@ SyncFn0(sl, kd, m, pg, sc) ==
   IN [k \in Names |->
         LET s == c[k] IN
         IF k \in view /\ k \notin des THEN (IF s.del THEN s ELSE NoSlot)                     \* delete (background)
+        ELSE IF k \in des /\ k \in view /\ m = "SSA" THEN [s EXCEPT !.eq = TRUE, !.la = FALSE]   \* server-side apply: forced patch by name,
+                                                                                            \* old last-applied record stripped; no strategy, no deletion guard
+        ELSE IF k \in des /\ m = "SSA" /\ s.live /\ s.ctrl = "none" THEN [s EXCEPT !.ctrl = "P", !.match = TRUE, !.eq = TRUE]  \* by-name apply takes an orphan over
+        ELSE IF k \in des /\ m = "SSA" /\ ~s.live THEN S("P", TRUE, TRUE, FALSE, FALSE, FALSE, "none")
         ELSE IF k \in des /\ k \in view THEN
                IF (s.eq /\ s.la) \/ s.del THEN s                                            \* already matches / pending deletion
                ELSE IF m = "InPlace" THEN [s EXCEPT !.eq = TRUE, !.la = TRUE]
@@ -115,14 +123,15 @@ Precond(sl, kd, pg, sc) == /\ pg # "badlabel"
 AtFixS(sl, kd, m, pg, sc) ==
   /\ Claimed(sl, kd, sc) = sl                    \* nothing left to adopt or release
   /\ View(sl, kd, sc) = Fix(pg)
-  /\ Updatable(m) => \A k \in Fix(pg) : sl[k].eq /\ sl[k].la
+  \* (dynamic apply records the desired state in the last-applied annotation; server-side apply strips that record)
+  /\ Updatable(m) => \A k \in Fix(pg) : sl[k].eq /\ (IF m = "SSA" THEN ~sl[k].la ELSE sl[k].la)
 RECURSIVE SyncsNeeded(_, _, _, _, _, _)
 SyncsNeeded(sl, kd, m, pg, sc, n) == IF n = 0 \/ SyncFn(sl, kd, m, pg, sc) = sl THEN 0
                                      ELSE 1 + SyncsNeeded(SyncFn(sl, kd, m, pg, sc), kd, m, pg, sc, n - 1)
 
 Init ==
   /\ kind \in Kinds /\ method \in Methods /\ prog \in Progs /\ scope \in Scopes /\ gensel \in GenSels
-  /\ (kind = "decorator" => ~gensel)
+  /\ (kind = "decorator" => ~gensel /\ method # "SSA")        \* decorators always use dynamic apply
   /\ slots \in [Names -> Arche(kind)]
   \* an owned, matching look-alike of the first child in ANOTHER namespace: a namespaced parent must neither
   \* see nor touch it (C03)
